@@ -228,6 +228,39 @@ def translate():
             return "the request policy is applied on every connection attempt (not guarded by the first-attempt flag)"
     _fact(fails, "router.rs connect / route_from_request", "the request-side policy is applied on the first connection attempt only", retry_once, hard=True)
 
+    def h2_scheme():
+        h2 = rd("lib/src/protocol/mux/h2.rs")
+        m = re.search(r"let\s+scheme\s*:[^=]*=\s*if\s+([^{]*?)\s*(==|!=)\s*Protocol::(HTTPS|HTTP)\s*\{\s*b\"(\w+)\"\s*\}\s*else\s*\{\s*b\"(\w+)\"\s*\}\s*;", h2)
+        if not m:
+            raise F.Unreadable("the scheme given to the H2 converter (write_streams) is not recognised")
+        if "listener" not in m.group(1) or "protocol()" not in m.group(1):
+            return "the scheme given to the H2 converter is not read from the listener's protocol (%s)" % re.sub(r"\s+", "", m.group(1))
+        then_, else_ = m.group(4), m.group(5)
+        on_match = (m.group(2) == "==")
+        val = {}
+        val[m.group(3)] = then_ if on_match else else_
+        val["HTTP" if m.group(3) == "HTTPS" else "HTTPS"] = else_ if on_match else then_
+        if val != {"HTTPS": "https", "HTTP": "http"}:
+            return ":scheme toward an HTTP/2 backend is %r (the model: the listener's protocol)" % val
+        cv_ = rd("lib/src/protocol/mux/converter.rs")
+        if not re.search(r"encode_header_into\(\s*\(\s*b\":scheme\"\s*,\s*self\.scheme\s*\)", cv_):
+            return "the converter does not write :scheme from the value it was built with"
+    _fact(fails, "h2.rs write_streams / converter.rs :scheme", ":scheme toward an HTTP/2 backend = the listener's protocol", h2_scheme, hard=True)
+
+    def group_closed():
+        # a header group is only started when its closing Flags block is queued (HPACK contexts stay in step)
+        body = re.sub(r"\s+", "", F.fn_body(cv, "call"))
+        m = re.search(r"if([^{]*)\{kawa\.blocks\.push_front\(block\);returnfalse;\}", body)
+        if not m:
+            return "H2BlockConverter::call does not put a header block back when its group is not closed yet"
+        conj = set(m.group(1).split("&&"))
+        want = {"self.out.is_empty()", "matches!(block,Block::Header(_))", "matches!(kawa.parsing_phase,ParsingPhase::Trailers)",
+                "!kawa.blocks.iter().any(|b|matches!(b,Block::Flags(_)))"}
+        got = set(conj)
+        if got != want:
+            return "a trailer field is held back on %r (the model: nothing encoded yet, a Header block, parser in the trailer section, no Flags block queued)" % sorted(got)
+    _fact(fails, "converter.rs H2BlockConverter::call", "a trailer section is started only when the Flags block closing it is queued", group_closed, hard=True)
+
     def request_id():
         h1 = rd("lib/src/protocol/mux/h1.rs")
         mr = re.search(r"stream\.context\.reset\(\)\s*;", h1)
@@ -492,6 +525,7 @@ def bb_cases(rng, tier):
         ops.append(["raw", raw])
         out.append(Case("y%d" % i, ops, dict(kind="bb")))
     out += trailer_split_cases(rng, {"quick": 10, "thorough": 120}.get(tier, 10))
+    out += h1_to_h2c_cases(rng, {"quick": 16, "thorough": 200}.get(tier, 16))
     # a frontend with a request-header rule (driver cluster "r", hostname retry.x: append X-Op, delete X-Drop) whose first
     # backend refuses connections: whichever backend the balancer picks first, the rule is applied once (oracle
     # bb-operator-header in the driver)
@@ -500,6 +534,55 @@ def bb_cases(rng, tier):
         for j in range(rng.choice([1, 1, 2])):
             raw += b"GET /r%d-%d HTTP/1.1\r\nHost: retry.x\r\nX-Drop: a\r\n%s\r\n" % (i, j, rng.choice([b"", b"X-Op: client\r\n", b"X-A: 1\r\n"]))
         out.append(Case("rt%d" % i, [["raw", raw]], dict(kind="bb")))
+    return out
+
+
+def h1_to_h2c_cases(rng, n):
+    """HTTP/1.1 client -> sozu -> HTTP/2 (h2c) recording backend (driver cluster "h", hostname h2.x): client copies of every
+    proxy-owned name in the head and in the trailer section, connection-specific fields (Connection, Keep-Alive,
+    Proxy-Connection, TE), upper-case names; keep-alive pipelining; the trailer section in one or two segments. Oracle
+    (h2rec::judge_h2c): lower-case names, no connection-specific field, one correlation header / x-request-id, last
+    x-forwarded-for / forwarded element is sozu's, no proxy-owned name in a trailer block, complete streams = the client's
+    requests."""
+    out = []
+    # fixed witnesses (finding fixed in converter.rs): a trailer section cut in the middle of its second line / after its
+    # first line, then more requests on the same connection (same h2c backend connection: same HPACK context)
+    for w, cut in enumerate([b"X-T: 6.6.6.6\r\nX-T: 0\r", b"X-T: 6.6.6.6\r\n", b"X-T: 6.6.6.6\r\nSozu"]):
+        head = b"POST /w%d-0 HTTP/1.1\r\nHost: h2.x\r\nX-Forwarded-Proto: Close\r\nTransfer-Encoding: chunked\r\n\r\n3\r\nabc\r\n0\r\n" % w
+        sec = (b"X-T: 6.6.6.6\r\nX-T: 0\r\n\r\n" if w < 2 else b"X-T: 6.6.6.6\r\nSozu-Id: FORGED\r\n\r\n")
+        steps = [head + cut, 60, sec[len(cut):], "r",
+                 b"GET /w%d-1 HTTP/1.1\r\nHost: h2.x\r\nContent-Length: 0\r\n\r\n" % w, "r",
+                 b"GET /w%d-2 HTTP/1.1\r\nHost: h2.x\r\nX-A: 1\r\nContent-Length: 0\r\n\r\n" % w, "r"]
+        out.append(Case("hw%d" % w, [["script"] + steps], dict(kind="bb")))
+    for i in range(n):
+        msgs = []
+        for j in range(rng.choice([1, 1, 2, 3])):
+            hs = [(nm, v) for (nm, v) in header_list(rng, 1, "Sozu-Id", 0, 6)
+                  if nm.lower() not in ("upgrade", "content-length", "transfer-encoding", "cookie", "connection", "te") and nm != ""]
+            if rng.random() < 0.5:
+                hs.append(rng.choice([("Connection", "keep-alive"), ("Keep-Alive", "timeout=5"), ("Proxy-Connection", "keep-alive"),
+                                      ("TE", "trailers"), ("TE", "gzip"), ("Connection", "keep-alive, X-A")]))
+            hs.insert(rng.randint(0, len(hs)), ("Host", "h2.x"))
+            body, split = b"", None
+            if rng.random() < 0.6:
+                hs.append(("Transfer-Encoding", "chunked"))
+                body = b"3\r\nabc\r\n0\r\n"
+                tl = [rng.choice(["X-Forwarded-For", "forwarded", "X-Real-IP", "x-request-id", "Sozu-Id", "SOZU-ID", "X-T", "grpc-status"]) for _ in range(rng.randint(1, 3))]
+                sec = b"".join(b(nm) + b": " + b(rng.choice(["6.6.6.6", "FORGED", "0"])) + b"\r\n" for nm in tl)
+                if rng.random() < 0.5:
+                    split = len(body) + rng.randint(1, len(sec))
+                body += sec + b"\r\n"
+            else:
+                hs.append(("Content-Length", "0"))
+            head = b(rng.choice(["GET", "POST"])) + b" /q%d-%d HTTP/1.1\r\n" % (i, j) + b"".join(b(nm) + b": " + b(v) + b"\r\n" for (nm, v) in hs) + b"\r\n"
+            msgs.append((head + body, None if split is None else len(head) + split))
+        steps = []
+        for (m, sp) in msgs:
+            if sp is None:
+                steps += [m, "r"]
+            else:
+                steps += [m[:sp], rng.choice([40, 100]), m[sp:], "r"]
+        out.append(Case("hh%d" % i, [["script"] + steps], dict(kind="bb")))
     return out
 
 
@@ -613,6 +696,8 @@ LEVEL_NOTE = ("Trusted: Coq kernel; extraction and ocaml/driver.ml for the corre
               "header assume its name passes validate_sozu_id_header, which (fix in /repo) rejects the names the proxy owns "
               "or interprets; the reserved list is compared with the source on every run, and so is the fact that both the add "
               "and the update paths of ConfigState call the validator (/repo aa7c657, 3983005). Black-box tiers: "
-              "HTTP/1 and HTTP/2 (TLS) frontends of a real worker, HTTP/1.1 and h2c recording backends.")
+              "HTTP/1 and HTTP/2 (TLS) frontends of a real worker, HTTP/1.1 and h2c recording backends behind both (trailer sections "
+              "split across reads, keep-alive pipelining, connection retries with a request-header rule, :scheme toward h2c). Defects "
+              "found and fixed in /repo: f4ed09f 2cc7234 67251ca bc06be5 aa7c657 7461b88 724990d 7f45d68.")
 TECHNIQUE = "Rocq/Coq proof over an executable Gallina model + differential correspondence (extracted OCaml vs real crate)"
 CLAIMED = True
